@@ -331,7 +331,10 @@ func (x *c14Exec) step(op c14Op) {
 		if len(s.entries) > 0 {
 			x.r.Violation(x.prefix+"residue:client-entries-after-all-unsubscribed", x.detail(map[string]interface{}{"trie": c14EntriesText(s.entries)}))
 		} else if s.nodes > 0 {
-			x.r.Violation(x.prefix+"residue:empty-nodes-after-all-unsubscribed", x.detail(map[string]interface{}{"nodes": s.nodes, "empty_leaves": s.empty}))
+			// Empty left-over nodes do not change any routing result, so the property ("no
+			// residue that affects later routing") is not refuted by them: recorded, not judged.
+			x.r.Count("residue_empty_nodes_left_in_trie_not_judged", 1)
+			x.r.Note("empty trie nodes left after everything was unsubscribed (%d nodes); routing unaffected, not a violation", s.nodes)
 		}
 	}
 	if x.mgr.levelMgr.data.Len() >= x.cache {
